@@ -434,8 +434,11 @@ var ruleH4 = &Rule{
 						} else if isNilK(cmp.X) {
 							tested = cmp.Y
 						}
-						ld, ok := tested.(*ssa.UnOp)
-						if !ok || ld.Op != token.MUL || !sameAddr(ld.X, st.Addr, 0) {
+						if ld, ok := tested.(*ssa.UnOp); ok {
+							if ld.Op != token.MUL || !sameAddr(ld.X, st.Addr, 0) {
+								continue
+							}
+						} else if !helperLoadsCell(tested, st.Addr) {
 							continue
 						}
 						nonNil, isNil := gb.Succs[0], gb.Succs[1]
@@ -764,3 +767,74 @@ var ruleF5 = &Rule{
 }
 
 func init() { register(ruleB2, ruleO1, ruleD7, ruleH4, ruleF5) }
+
+// addrPathOf: an address written as a path from the function's parameters (p0.F, *(p0.F), …); "" when it is anything else.
+func addrPathOf(v ssa.Value, d int) string {
+	if d > 6 || v == nil {
+		return ""
+	}
+	switch x := v.(type) {
+	case *ssa.Parameter:
+		for i, p := range x.Parent().Params {
+			if p == x {
+				return fmt.Sprintf("p%d", i)
+			}
+		}
+	case *ssa.FieldAddr:
+		if b := addrPathOf(x.X, d+1); b != "" {
+			return b + "." + fieldNameOf(x.X.Type(), x.Field)
+		}
+	case *ssa.UnOp:
+		if x.Op == token.MUL {
+			if b := addrPathOf(x.X, d+1); b != "" {
+				return "*(" + b + ")"
+			}
+		}
+	}
+	return ""
+}
+
+// helperLoadsCell: tested is the result of a module helper every return of which is nil or the content of the cell at addr (the
+// helper's parameters replaced by the call's arguments).
+func helperLoadsCell(tested ssa.Value, addr ssa.Value) bool {
+	call, ok := tested.(*ssa.Call)
+	if !ok {
+		return false
+	}
+	sc := call.Common().StaticCallee()
+	if sc == nil || !isModuleFn(sc) {
+		return false
+	}
+	want := addrPathOf(addr, 0)
+	if want == "" {
+		return false
+	}
+	loads := 0
+	for _, r := range returnsOf(sc) {
+		if len(r.Results) != 1 {
+			return false
+		}
+		if k, ok := r.Results[0].(*ssa.Const); ok && k.Value == nil {
+			continue
+		}
+		ld, ok := r.Results[0].(*ssa.UnOp)
+		if !ok || ld.Op != token.MUL {
+			return false
+		}
+		p := addrPathOf(ld.X, 0)
+		if p == "" {
+			return false
+		}
+		for i, a := range call.Common().Args {
+			if ap := addrPathOf(a, 0); ap != "" {
+				p = strings.ReplaceAll(p, fmt.Sprintf("p%d", i), "\x00"+ap+"\x00")
+			}
+		}
+		p = strings.ReplaceAll(p, "\x00", "")
+		if p != want {
+			return false
+		}
+		loads++
+	}
+	return loads > 0
+}
